@@ -5,7 +5,7 @@ import ast
 from typing import Dict, List, Optional, Set, Tuple
 
 from .. import linear
-from ..core import (AnalysisError, Module, Repo, call_attr, call_name, calls_in, dotted, enclosing_class, enclosing_def,
+from ..core import (AnalysisError, Module, Repo, call_attr, call_name, calls_in, dotted, enclosing_class, enclosing_def, parent,
                     func_params, get_kw, norm, qualname, short)
 from ..report import Ctx
 
@@ -431,3 +431,94 @@ def _phase_derived(fn: ast.FunctionDef, e: ast.AST) -> bool:
                             changed = True
     return any(isinstance(x, ast.Attribute) and x.attr in ("phase", "_phase") for x in ast.walk(e)) or \
         any(isinstance(x, ast.Name) and x.id in derived for x in ast.walk(e))
+
+
+
+# --------------------------------------------------------------------------- signs of generator products, measurement row set
+
+
+def rule_phase_combine(ctx: Ctx) -> None:
+    """own.rowops (companion): the sign of a *product* of generators is only ever obtained through row_sum (which tracks the
+    i-phase via g_function).  An expression that reduces several entries of a phase vector (sum / xor of phase[...] entries)
+    computes a parity of signs, which is wrong as soon as the multiplied Paulis overlap."""
+    repo = ctx.repo
+    n = 0
+    for rel in SIGN_MODULES:
+        m = repo.module(rel)
+        for fn in m.functions():
+            if fn.name in ("row_sum", "g_function"):
+                continue
+            for node in ast.walk(fn):
+                bad = None
+                if isinstance(node, ast.Call) and call_attr(node) in ("sum", "bitwise_xor", "reduce", "count_nonzero", "prod") and node.args:
+                    a0 = node.args[-1] if call_attr(node) == "reduce" else node.args[0]
+                    if any(isinstance(x, ast.Subscript) and isinstance(x.value, ast.Attribute) and x.value.attr in ("phase", "_phase", "iphase")
+                           and not isinstance(x.slice, (ast.Constant,)) for x in ast.walk(a0)):
+                        bad = node
+                if isinstance(node, ast.BinOp) and isinstance(node.op, (ast.BitXor, ast.Add)):
+                    sides = [node.left, node.right]
+                    if all(isinstance(x, ast.Subscript) and isinstance(x.value, ast.Attribute) and x.value.attr in ("phase", "_phase") for x in sides):
+                        bad = node
+                if bad is not None:
+                    n += 1
+                    ctx.fail("own.rowops", m, bad,
+                             f"`{short(bad, 90)}` combines several sign-vector entries arithmetically; the sign of a product of generators must come "
+                             f"from row_sum (g_function tracks the i-phase of overlapping Paulis), a parity of signs is wrong in general",
+                             func=qualname(fn), construct=f"{qualname(fn)}: arithmetic on phase entries {short(bad, 60)}")
+    ctx.ok_abstract("own.rowops", f"no arithmetic combination of sign-vector entries outside row_sum in {len(SIGN_MODULES)} modules")
+
+
+def rule_measure_rowset(ctx: Ctx) -> None:
+    """measure.rowset: in z_measurement_gate's random-outcome branch every row with an X on the measured qubit except the pivot
+    is multiplied by the pivot (row_sum); the iterated row set may only be `np.nonzero(column)[0]` with the pivot removed."""
+    repo = ctx.repo
+    m = repo.module(CLIFF)
+    fn = repo.anchor(CLIFF, "z_measurement_gate")
+    ctx.touch(m, fn)
+    loops = [l for l in ast.walk(fn) if isinstance(l, ast.For) and any(call_attr(c) == "row_sum" for c in calls_in(l))]
+    rand = [l for l in loops if isinstance(l.iter, ast.Name)]
+    if not rand:
+        raise AnalysisError("z_measurement_gate: row_sum loop over the non-zero rows not found")
+    l = rand[0]
+    v = l.iter.id
+    defs = [n for n in ast.walk(fn) if isinstance(n, ast.Assign) and any(norm(t) == v for t in n.targets)]
+    ok = bool(defs)
+    why = []
+    for d in defs:
+        val = d.value
+        if isinstance(val, ast.Subscript) and isinstance(val.value, ast.Call) and call_attr(val.value) == "nonzero" and norm(val.slice) == "0":
+            continue
+        if isinstance(val, ast.Call) and call_attr(val) == "delete" and val.args and norm(val.args[0]) == v:
+            continue
+        ok = False
+        why.append(short(d, 80))
+    rs = [c for c in calls_in(l) if call_attr(c) == "row_sum"][0]
+    tgt_ok = norm(rs.args[5]) == norm(l.target) if len(rs.args) > 5 else False
+    if ok and tgt_ok:
+        ctx.ok("measure.rowset", m, l, what="all rows with X on the measured qubit (pivot removed) are multiplied by the pivot")
+    else:
+        ctx.fail("measure.rowset", m, l,
+                 f"z_measurement_gate multiplies the pivot into the rows `{v}`, but that set is restricted by {why or 'an unrecognised definition'}: "
+                 f"every row (destabilizer or stabilizer) with an X on the measured qubit, except the pivot, must be updated, otherwise the "
+                 f"tableau is no longer a valid tableau of the post-measurement state", func="z_measurement_gate",
+                 construct=f"z_measurement_gate: row set {why[0] if why else v}")
+    # the deterministic branch derives the outcome from a row_sum accumulation into the scratch row
+    outs = [n for n in ast.walk(fn) if isinstance(n, ast.Assign) and norm(n.targets[0]) == "outcome" and not isinstance(n.value, ast.Constant)
+            and "random" not in norm(n.value)]
+    det = [n for n in outs if _phase_derived(fn, n.value)]
+    scratch = [lp for lp in loops if lp is not l]
+    if det and scratch and any(isinstance(x, ast.Subscript) for x in ast.walk(det[0].value)):
+        src = det[0].value
+        base = src.value if isinstance(src, ast.Subscript) else None
+        rsum = [c for lp in scratch for c in calls_in(lp) if call_attr(c) == "row_sum"]
+        tgt = parent(rsum[0]).targets[0].elts[2] if rsum and isinstance(parent(rsum[0]), ast.Assign) and isinstance(parent(rsum[0]).targets[0], ast.Tuple) else None
+        if base is not None and tgt is not None and norm(base) == norm(tgt):
+            ctx.ok("measure.rowset", m, det[0], what="deterministic outcome = sign of the row_sum-accumulated scratch row")
+        else:
+            ctx.fail("measure.rowset", m, det[0], f"the deterministic outcome `{short(det[0])}` is not read from the sign vector accumulated by row_sum",
+                     func="z_measurement_gate", construct="z_measurement_gate: deterministic outcome source")
+    else:
+        node = outs[0] if outs else fn
+        ctx.fail("measure.rowset", m, node,
+                 "in the deterministic branch the outcome must be the sign of the product of the contributing stabilizers as accumulated by "
+                 "row_sum into a scratch row; it is computed differently", func="z_measurement_gate", construct="z_measurement_gate: deterministic outcome not via row_sum")
